@@ -16,7 +16,10 @@
 (***************************************************************************)
 EXTENDS PositionOps, TLC
 
-CONSTANTS Layers, MaxPer, MaxNodes, Widths, MaxIn, NS
+CONSTANTS Layers, MaxPer, MaxNodes, Widths, MaxIn, NS,
+          Tall,     \* FALSE: every node has height 0 (the x-coordinate invariants do not read heights); TRUE: height = width \div 3 + 1
+                    \* for nodes of positive width, so that wider nodes are taller (used by the spline-corridor invariants)
+          LS        \* LayerSpacing
 
 VARIABLES G,
           ready     \* FALSE in the initial states, TRUE after the one step: the invariants are evaluated on the successor states,
@@ -37,7 +40,7 @@ SeqOfPairs(S) == IF S = {} THEN <<>>
                       IN <<m>> \o SeqOfPairs(S \ {m})
 Mk(sh, ws, vs, E) ==
     LET es == SeqOfPairs(E) k == K(sh) IN
-    [k |-> k, w |-> ws, h |-> [n \in 1..k |-> 0], virt |-> vs,
+    [k |-> k, w |-> ws, h |-> [n \in 1..k |-> IF Tall /\ ws[n] > 0 THEN ws[n] \div 3 + 1 ELSE 0], virt |-> vs,
      layer |-> [n \in 1..k |-> (CHOOSE l \in 1..Layers : Start(sh, l) < n /\ n <= Start(sh, l) + sh[l]) - 1],
      pos |-> [n \in 1..k |-> n - Start(sh, CHOOSE l \in 1..Layers : Start(sh, l) < n /\ n <= Start(sh, l) + sh[l]) - 1],
      ef |-> [i \in DOMAIN es |-> es[i][1]], et |-> [i \in DOMAIN es |-> es[i][2]],
@@ -128,5 +131,35 @@ BKNoStartInsideNeighbour == ready => LET F == BKF IN \A p \in AdjPairs : ~(F[p[2
 Goal_BKOverlap == ready => LET F == BKF IN \A p \in AdjPairs : F[p[1]] + 2 * G.w[p[1]] <= F[p[2]]
 Goal_BKMarksSomething == ready => BKM = {}
 Goal_BKFallback == ready => BK!Verify(G, BK!Balance2(G, BKX), 2, NS)
+\* ---- the spline router's corridors (RouteOps!BuildRects6) on the same graphs, positioned by VAlign / PackRight / SinkColoring:
+\* when no rectangle can be degenerate by construction (positive spacings, real nodes of positive size) every corridor must
+\* satisfy what geom.Shortest requires (CorridorOps!WellFormed + end points inside the first / last rectangle)
+RO == INSTANCE RouteOps
+\* helper nodes as phase 3 makes them: exactly one edge in and one edge out
+HelpersProper == \A n \in 1..G.k : G.virt[n] = 1 =>
+    Cardinality({i \in DOMAIN G.ef : G.et[i] = n}) = 1 /\ Cardinality({i \in DOMAIN G.ef : G.ef[i] = n}) = 1
+NonDegenerate == NS > 0 /\ LS > 0 /\ \A n \in 1..G.k : G.virt[n] = 0 => (G.w[n] > 0 /\ G.h[n] > 0)
+\* everything doubled (the positioners return half units); rectangles come out in twelfths
+RG(x2) == [x |-> x2, y |-> [n \in 1..G.k |-> 2 * YOfLayer(G, LS, G.layer[n] + 1)],
+           w |-> [n \in 1..G.k |-> 2 * G.w[n]], h |-> [n \in 1..G.k |-> 2 * G.h[n]],
+           virt |-> G.virt, layer |-> G.layer, pos |-> G.pos, layers |-> G.layers, ef |-> G.ef, et |-> G.et,
+           lh |-> [l \in DOMAIN G.layers |-> 2 * LayerH(G, l)]]
+HeadEdges == {e \in DOMAIN G.ef : G.virt[G.ef[e]] = 0}
+CorridorsOK(x2) == LET R == RG(x2) IN \A e \in HeadEdges : RO!SplineInputOK(R, RO!RouteNodes(R, e), 20)
+\* both layerers leave no layer without a real node (such a layer could be removed: the layering would not be minimal);
+\* rectVirtualNode relies on it ("a layer cannot contain only one virtual node") and indexes out of range otherwise
+LayersPopulated == \A l \in DOMAIN G.layers : \E j \in DOMAIN G.layers[l] : G.virt[G.layers[l][j]] = 0
+\* the real nodes of a layer are equally tall (the corridor code takes band heights from whichever node is at hand)
+UniformBands == \A l \in DOMAIN G.layers : \A i, j \in DOMAIN G.layers[l] :
+    (G.virt[G.layers[l][i]] = 0 /\ G.virt[G.layers[l][j]] = 0) => G.h[G.layers[l][i]] = G.h[G.layers[l][j]]
+\* the neighbours from which rectVirtualNode takes the band's vertical extent are real nodes (a helper node has height 0)
+HelperNeighboursReal == \A l \in DOMAIN G.layers : \A j \in 1..(Len(G.layers[l]) - 1) :
+    ~(G.virt[G.layers[l][j]] = 1 /\ G.virt[G.layers[l][j + 1]] = 1)
+\* Outside these preconditions TLC finds malformed corridors at once (start point above the first rectangle when the source
+\* node is shorter than its layer; a rectangle of height 0 next to two adjacent helper nodes; an index out of range in a
+\* layer that holds only a helper node): geom.Shortest is then used outside the contract of C19 (DESIGN.md, section 14, D11)
+SplineCorridorsOK == (ready /\ HelpersProper /\ NonDegenerate /\ LayersPopulated /\ UniformBands /\ HelperNeighboursReal) =>
+    /\ CorridorsOK(VAlignX2(G, NS)) /\ CorridorsOK(PackRightX2(G, NS))
+    /\ LET S == SinkColoringX2(G, NS) IN S.finished => CorridorsOK(S.x)
 Goal_NarrowRightOfWide == ~(ready /\ \E p \in AdjPairs : G.w[p[1]] > G.w[p[2]] /\ G.w[p[2]] = 0)
 =============================================================================
